@@ -735,6 +735,12 @@ Fail(classes, cites, keys) ==
     /\ res' = <<"ERR", classes, cites, keys>>
     /\ stack' = <<>>
 
+\* how often is node n referenced, and is it the key of some mapping?
+Refs(h, n) == Cardinality({<<m, i>> \in (DOMAIN h) \X (1..(2 * Len(h) + 2)) :
+                              i \in DOMAIN h[m].c /\ h[m].c[i] = n})
+IsKeySomewhere(h, n) == \E m \in DOMAIN h : h[m].k = "m" /\
+                            \E i \in DOMAIN h[m].c : i % 2 = 1 /\ h[m].c[i] = n
+
 \* has this node been changed since it was composed?  (alias revisits)
 Modified(n) == n <= Len(doc0.h) /\ heap[n] # doc0.h[n]
 \* ... in a way a second visit cannot notice: only the tag of a mapping was
@@ -870,7 +876,11 @@ Finish ==
            /\ heap' = h2
            \* F7 classifier: stripping the tags below an Any position rewrote a
            \* node that was processed before as something else (through an alias)
-           /\ shared' = (shared \/ \E p \in visited : p[1] # f.n /\ h2[p[1]] # heap[p[1]])
+           \* ... or this visit rewrites a node that is also the KEY of some
+           \* mapping through an alias (keys of class mappings are never
+           \* visited, so no revisit would notice)
+           /\ shared' = (shared \/ (\E p \in visited : p[1] # f.n /\ h2[p[1]] # heap[p[1]])
+                                \/ (h2[f.n] # heap[f.n] /\ IsKeySomewhere(heap, f.n) /\ Refs(heap, f.n) > 1))
            /\ stack' = SubSeq(stack, 1, Len(stack) - 1)
            /\ IF Len(stack) = 1
               THEN /\ root' = f.n /\ ret' = <<0, 0>> /\ phase' = "construct"
